@@ -131,12 +131,18 @@ pub fn sample_of(f32_: bool, max_n: usize, ill: bool) -> impl Strategy<Value = S
     let erange = if f32_ { -15i32..=15 } else { -60i32..=60 };
     // 8 %: the same data scaled (exactly, by a power of two) to within 12 binades of the largest magnitude
     // at which n * x^2 still fits the float type — legitimate data near the top of the range
-    let edge = prop_oneof![23 => Just(None), 2 => (0u8..12).prop_map(Some)];
+    // 4 %: scaled down instead, so that the squares of the observations are at or below the bottom of the normal range
+    // (variance-level quantities lose precision to underflow; the tolerance model has an absolute term for it)
+    let edge = prop_oneof![22 => Just(None), 2 => (0u8..12).prop_map(Some), 1 => (100u8..112).prop_map(Some)];
     (0usize..6, kappa, any::<bool>(), erange, raw_sized(max_n), edge).prop_map(move |(shape, kc, neg, e, raw, edge)| {
         let mut data = build_values(f32_, shape, kc, neg, e, &raw);
         let mut shape_name = SHAPES[shape].to_string();
         if let Some(back) = edge {
-            if scale_to_upper_edge(f32_, &mut data, back) {
+            if back >= 100 {
+                if scale_to_lower_edge(f32_, &mut data, back - 100) {
+                    shape_name.push_str("@lower-edge");
+                }
+            } else if scale_to_upper_edge(f32_, &mut data, back) {
                 shape_name.push_str("@upper-edge");
             }
         }
@@ -166,13 +172,36 @@ pub fn scale_to_upper_edge(f32_: bool, data: &mut [f64], back: u8) -> bool {
     }
     data.iter().all(|x| x.is_finite())
 }
+/// scale `data` by a power of two so that max|x|^2 is 2^-(1000 + 5 back) (f32: 2^-(110 + 3 back)): squares and the
+/// variance are at the bottom of the normal range or subnormal; returns false (data untouched) for all-zero data
+pub fn scale_to_lower_edge(f32_: bool, data: &mut [f64], back: u8) -> bool {
+    let maxabs = data.iter().fold(0.0f64, |m, x| m.max(x.abs()));
+    if !(maxabs > 0.0) || !maxabs.is_finite() {
+        return false;
+    }
+    let target = if f32_ { -110.0 - 3.0 * back as f64 } else { -1000.0 - 5.0 * back as f64 };
+    let e = ((target - 2.0 * maxabs.log2()) / 2.0).floor() as i32;
+    if e >= 0 {
+        return false;
+    }
+    let s = crate::fl::pow2(e);
+    for x in data.iter_mut() {
+        *x *= s;
+        if f32_ {
+            *x = (*x as f32) as f64;
+        }
+    }
+    true
+}
 pub fn sample(max_n: usize, ill: bool) -> impl Strategy<Value = Sample> {
     prop_oneof![sample_of(false, max_n, ill), sample_of(true, max_n, ill)]
 }
 
 /// strictly positive sample for geometric / harmonic means: x = 2^(e + range*u) style values
 pub fn positive_sample_of(f32_: bool, max_n: usize) -> impl Strategy<Value = Sample> {
-    let erange = if f32_ { -12i32..=12 } else { -40i32..=40 };
+    // magnitudes: mostly within 2^±12 (f32) / 2^±40 (f64), one in five out to 2^±30 / 2^±120 (for the harmonic mean
+    // the reciprocals are then far below every absolute threshold a computation might use)
+    let erange = if f32_ { prop_oneof![4 => -12i32..=12, 1 => -30i32..=30].boxed() } else { prop_oneof![4 => -40i32..=40, 1 => -120i32..=120].boxed() };
     // spread code: dynamic range of the data in binary orders of magnitude (0 => near constant)
     (0u32..=4, erange, raw_sized(max_n)).prop_map(move |(spread, e, raw)| {
         let range = [0.001, 0.1, 1.0, 8.0, if f32_ { 12.0 } else { 40.0 }][spread as usize];
